@@ -349,8 +349,16 @@ func finish(cfg *RunConfig, ld *Loaded, runs []*HarnessRun, reports []*HarnessRe
 		return nil
 	}
 	var all []*Failure
-	for _, h := range runs {
+	usedOverrides := map[string]bool{}
+	for i, h := range runs {
 		all = append(all, h.Failures...)
+		if execs[i] != nil {
+			for k := range execs[i].stats.Stubs {
+				if strings.HasPrefix(k, "override:") {
+					usedOverrides[h.Name] = true
+				}
+			}
+		}
 	}
 	// native replay: failures and sampled traces
 	rr := &ReplayResult{}
@@ -363,7 +371,9 @@ func finish(cfg *RunConfig, ld *Loaded, runs []*HarnessRun, reports []*HarnessRe
 	for _, f := range all {
 		key := f.Harness + "/" + f.ID
 		rep, ran := rr.Failed[key]
-		noNative := rr.NoNative[f.Harness]
+		// harnesses that ran on engine-only environment stubs (vStub_ overrides) cannot be confirmed natively:
+		// they are treated like the _sym harnesses (the native run uses the real os/sync/bcrypt functions)
+		noNative := rr.NoNative[f.Harness] || usedOverrides[f.Harness]
 		dir := rr.Dirs[key]
 		if dir == "" {
 			dir = filepath.Join(cfg.VerifDir, "replays", cfg.Prop)
